@@ -76,6 +76,19 @@ add(_c('triv_na', tu='cfg_na.cpp', defines=['NDEBUG', 'VT_TRIVIAL', 'VT_NO_ASSIG
        model_defines={'COPY_MAY_THROW': 0, 'DEFAULT_MAY_THROW': 0, 'ASSIGN_COPY_MAY_THROW': 0, 'ELEM_TRIVIAL': 1}, compile_obligation='C13', props=['C13'],
        facts=dict(_PF, TRIVIAL=1)))
 
+# constant evaluation (C08): std::is_constant_evaluated () is true - the `if (std::is_constant_evaluated ())` branches run, the
+# container always holds an allocator block (has_allocation () is true, set_to_inline_storage allocates), and nothing throws
+# (a throw is not a constant expression).  The SAME contracts must hold: same sizes, values, return values and growth.
+CE_ONLY = ['svb_append_element__pcE', 'svb_append_element__pE', 'svb_append_copies', 'svb_request_capacity', 'svb_shrink_to_size',
+           'svb_emplace_into_current__pE_pcE', 'svb_emplace_into_current__pE_pE', 'svb_emplace_into_reallocation__pE_pcE',
+           'svb_insert_copies', 'svb_erase_range', 'svb_erase_at', 'svb_erase_last', 'svb_erase_all', 'svb_erase_to_end',
+           'svb_resize_with__ul', 'svb_resize_with__ul_pcE', 'svb_append_range__strong_pcE_pcE', 'svb_move_left__pE_pE_pE', 'svb_move_right__pE_pE_pE',
+           'svb_shift_into_uninitialized', 'svb_unchecked_calculate_new_capacity', 'svb_assign_with_copies', 'svb_assign_with_range__pcE_pcE',
+           'ai_external_range_length__pcE_pcE', 'ai_external_range_length__FI_FI', 'svb_dtor', 'svb_ctor__ul_pcE_pcA', 'svb_ctor__ul_pcA', 'svb_ctor__pcA', 'svb_ctor__pcE_pcE_pcA']
+_NOTHROW = {'COPY_MAY_THROW': 0, 'DEFAULT_MAY_THROW': 0, 'ASSIGN_COPY_MAY_THROW': 0, 'ALLOC_MAY_THROW': 0, 'ITER_MAY_THROW': 0}
+add(_c('ce', only=CE_ONLY, model_defines=dict(_NOTHROW, CONSTEVAL=1), facts=dict(_PF, CE=1), props=['C08']))
+add(_c('ce_triv', defines=['NDEBUG', 'VT_TRIVIAL'], only=CE_ONLY, model_defines=dict(_NOTHROW, CONSTEVAL=1, ELEM_TRIVIAL=1), facts=dict(_PF, CE=1, TRIVIAL=1), props=['C08']))
+
 # language standards (C17): the same TU extracted under each -std; a function whose extracted text (with everything it inlines)
 # is identical to the C++20 extraction shares that proof, the others are proved against the SAME contract
 for _std, _nm in (('c++11', 'std11'), ('c++14', 'std14'), ('c++17', 'std17'), ('c++2b', 'std23')):
@@ -102,8 +115,8 @@ def cfg_defines(cfg):
     return d
 
 TIERS = {
-    'quick': ['main', 'std11', 'std17', 'tmove', 'aprop', 'aeq', 'pocs', 'pocma', 'pair_lt', 'pair_gt', 'n0', 'u8', 'triv', 'triv_na', 'kf_inline_gt_max'],
-    'thorough': ['main', 'std11', 'std14', 'std17', 'std23', 'tmove', 'aprop', 'aeq', 'pocs', 'pair_lt', 'pair_gt', 'n0_full', 'u8', 'triv', 'triv_na', 'kf_inline_gt_max', 'pocca', 'pocma', 'pocca_pocma', 'pocca_pocs', 'pocma_pocs'],
+    'quick': ['main', 'std11', 'std17', 'tmove', 'aprop', 'aeq', 'pocs', 'pocma', 'pair_lt', 'pair_gt', 'n0', 'u8', 'triv', 'triv_na', 'kf_inline_gt_max', 'ce', 'ce_triv'],
+    'thorough': ['main', 'std11', 'std14', 'std17', 'std23', 'tmove', 'aprop', 'aeq', 'pocs', 'pair_lt', 'pair_gt', 'n0_full', 'u8', 'triv', 'triv_na', 'kf_inline_gt_max', 'pocca', 'pocma', 'pocca_pocma', 'pocca_pocs', 'pocma_pocs', 'ce', 'ce_triv'],
 }
 
 # ---- quick tier: per property, the proofs run on every change (measured: <= ~10 min on 16 cores each).
@@ -122,7 +135,7 @@ _PUB = ['sv_push_back__pcE', 'sv_push_back__pE', 'sv_emplace_back__pcE', 'sv_pop
         'sv_insert__svcit_ul_pcE', 'sv_erase__svcit', 'sv_erase__svcit_svcit', 'sv_assign__ul_pcE', 'sv_append__pcE_pcE']
 _ALLOC = ['svb_copy_assign__pcsvb', 'svb_copy_assign_default__pcsvb', 'svb_move_assign_default__psvb', 'svb_swap_default', 'svb_ctor__psvb', 'sv_get_allocator']
 _LEAVES_Q = [l for l in _LEAVES if l != 'ai_default_uninitialized_copy__pcE_pcE_pE']
-_TMOVE_Q = ['svb_emplace_into_reallocation__pE_pcE', 'svb_shrink_to_size', 'svb_request_capacity']
+_TMOVE_Q = ['svb_emplace_into_reallocation__pE_pcE', 'svb_shrink_to_size', 'svb_request_capacity', 'svb_shift_into_uninitialized']
 _GLOBAL = {'main': _LEAVES_Q + _CORE, 'tmove': _TMOVE_Q}
 QUICK = {
     'C01': {'main': _CORE + _CORE2 + _PUB + ['sv_at__ul', 'sv_at__ul_c', 'sv_op_index__ul', 'sv_front__v', 'sv_back__v']},
